@@ -534,9 +534,13 @@ func (t *Tree) RerootOutGroup(removeoutgroup, strict bool, tips ...string) error
 		ne := t.ConnectNodes(root, lnode)
 		ne2 := t.ConnectNodes(root, rnode)
 
-		if length > 0 {
+		// The two halves of the cut branch: a zero length is a length, and the support
+		// does not depend on the length
+		if length != NIL_LENGTH {
 			ne.SetLength(length / 2.0)
 			ne2.SetLength(length / 2.0)
+		}
+		if support != NIL_SUPPORT {
 			ne.SetSupport(support)
 			ne2.SetSupport(support)
 		}
